@@ -26,7 +26,22 @@ use std::time::Duration;
 struct RecStore {
     hub: Hub,
     label: String, // "n1" or "n1:d2"
+    /// what this store remembers beyond the effect strings (component `loop`)
+    mem: Mem,
+    /// behave like a store that knows its metrics: data for a name the last birth did not define is
+    /// answered `UnknownMetric` (component `loop`, `st=1`); off = accept whatever comes (component `host`)
+    strict: bool,
 }
+
+/// per store: the metric-name set of the last `update_from_birth` and the verdict of every
+/// `update_from_data` (id, accepted). Never part of the canonical effect strings.
+#[derive(Clone, Debug, Default)]
+pub struct StoreMem {
+    pub birth_names: Option<BTreeSet<String>>,
+    pub births: u64,
+    pub verdicts: Vec<(i64, bool)>,
+}
+pub type Mem = std::sync::Arc<std::sync::Mutex<BTreeMap<String, StoreMem>>>;
 
 fn long_of(v: &Option<srad_types::MetricValue>) -> Option<i64> {
     v.clone().and_then(|x| i64::try_from(x).ok())
@@ -72,6 +87,12 @@ impl MetricStore for RecStore {
         }
         let v = verdict(&names);
         let ok = v.is_ok() as u8;
+        if v.is_ok() {
+            let mut g = self.mem.lock().unwrap();
+            let e = g.entry(self.label.clone()).or_default();
+            e.birth_names = Some(names.iter().cloned().collect());
+            e.births += 1;
+        }
         let (n, d) = self.prefix();
         match d {
             None => self.note(format!("{}:nodeBirth({},{})", n, id, ok)),
@@ -95,7 +116,17 @@ impl MetricStore for RecStore {
             None => self.note(format!("{}:nodeData({})", n, id)),
             Some(d) => self.note(format!("{}:devData({},{})", n, d, id)),
         }
-        verdict(&names)
+        let mut v = verdict(&names);
+        let mut g = self.mem.lock().unwrap();
+        let e = g.entry(self.label.clone()).or_default();
+        if self.strict && v.is_ok() {
+            let known = e.birth_names.as_ref().map(|s| names.iter().all(|n| s.contains(n))).unwrap_or(false);
+            if !known {
+                v = Err(StateUpdateError::UnknownMetric);
+            }
+        }
+        e.verdicts.push((id, v.is_ok()));
+        v
     }
 }
 
@@ -145,15 +176,20 @@ pub struct Sess {
     applied_ids: BTreeSet<(String, i64)>,
     reseq_on: bool,
     pub ordered_ids: bool, // the generator numbers a session's messages in publish order
+    /// nodes whose current publisher session lost its NBIRTH (`nl=1` on the line): two publisher
+    /// sessions merge into one host session, so publish-order ids say nothing until the next
+    /// accepted NBIRTH
+    pub order_suspended: std::collections::HashSet<String>,
     host_online: bool,
     pub clean: bool,                                // the generator promises a fault-free history
     pub ncmds: u64,
+    mem: Mem,
 }
 
 /// build the application on the current runtime, report it Online and run to quiescence. With
 /// `reset_clock` the mock clock reads `now` again afterwards (component `host`: the first request
 /// runs at `now`); without, the start-up costs 1 ms like every other line (component `loop`).
-async fn start_app(cfgw: &[&str], reset_clock: bool) -> (Hub, EventFeeder) {
+async fn start_app(cfgw: &[&str], reset_clock: bool, strict: bool) -> (Hub, EventFeeder, Mem) {
     let now = num(cfgw, "now");
     let b = |k: &str| num(cfgw, k) == 1;
     let cfg = RebirthConfig {
@@ -176,6 +212,8 @@ async fn start_app(cfgw: &[&str], reset_clock: bool) -> (Hub, EventFeeder) {
     let h2 = hub.clone();
     set_clocks(now);
     let hub_cb = h2.clone();
+    let mem: Mem = Default::default();
+    let mem_cb = mem.clone();
     let (app, _client) = ApplicationBuilder::new("host", el, client, SubscriptionConfig::AllGroups)
         .with_rebirth_config(cfg)
         .resequence_messages(reseq)
@@ -183,12 +221,13 @@ async fn start_app(cfgw: &[&str], reset_clock: bool) -> (Hub, EventFeeder) {
         .on_node_created(move |node| {
             let n = node.id().node.clone();
             hub_cb.note(format!("{}:nodeCreated", n));
-            node.register_metric_store(RecStore { hub: hub_cb.clone(), label: n.clone() });
+            node.register_metric_store(RecStore { hub: hub_cb.clone(), label: n.clone(), mem: mem_cb.clone(), strict });
             let hub_d = hub_cb.clone();
+            let mem_d = mem_cb.clone();
             node.on_device_created(move |dev| {
                 let d = dev.name().to_string();
                 hub_d.note(format!("{}:devCreated({})", n, &d[1..]));
-                dev.register_metric_store(RecStore { hub: hub_d.clone(), label: format!("{}:{}", n, d) });
+                dev.register_metric_store(RecStore { hub: hub_d.clone(), label: format!("{}:{}", n, d), mem: mem_d.clone(), strict });
             });
         })
         .build();
@@ -198,13 +237,13 @@ async fn start_app(cfgw: &[&str], reset_clock: bool) -> (Hub, EventFeeder) {
     if reset_clock {
         set_clocks(now);
     }
-    (hub, feeder)
+    (hub, feeder, mem)
 }
 
-fn build(cfgw: &[&str]) -> (tokio::runtime::Runtime, Hub, EventFeeder) {
+fn build(cfgw: &[&str]) -> (tokio::runtime::Runtime, Hub, EventFeeder, Mem) {
     let rt = runtime();
-    let (hub, feeder) = rt.block_on(start_app(cfgw, true));
-    (rt, hub, feeder)
+    let (hub, feeder, mem) = rt.block_on(start_app(cfgw, true, false));
+    (rt, hub, feeder, mem)
 }
 
 /// one delivery: run to quiescence with the clock reading unchanged; then virtual time moves on
@@ -233,19 +272,25 @@ pub async fn adv_ticks(now: u64, adv: u64) {
 impl Sess {
     pub fn new(op: &str) -> Sess {
         let w: Vec<&str> = op.split(' ').collect();
-        let (rt, hub, feeder) = build(&w);
-        Sess::with(Some(rt), hub, feeder, &w)
+        let (rt, hub, feeder, mem) = build(&w);
+        Sess::with(Some(rt), hub, feeder, mem, &w)
     }
 
     /// the session on the CURRENT runtime (component `loop`): call inside `block_on`; the start-up
     /// costs 1 ms of virtual time and of the mock clock
-    pub async fn new_here(op: &str) -> Sess {
+    /// `strict`: the recording stores reject data for metric names their last birth did not define
+    pub async fn new_here(op: &str, strict: bool) -> Sess {
         let w: Vec<&str> = op.split(' ').collect();
-        let (hub, feeder) = start_app(&w, false).await;
-        Sess::with(None, hub, feeder, &w)
+        let (hub, feeder, mem) = start_app(&w, false, strict).await;
+        Sess::with(None, hub, feeder, mem, &w)
     }
 
-    fn with(rt: Option<tokio::runtime::Runtime>, hub: Hub, feeder: EventFeeder, w: &[&str]) -> Sess {
+    /// what the store `label` ("n1" / "n1:d2") remembers
+    pub fn store(&self, label: &str) -> StoreMem {
+        self.mem.lock().unwrap().get(label).cloned().unwrap_or_default()
+    }
+
+    fn with(rt: Option<tokio::runtime::Runtime>, hub: Hub, feeder: EventFeeder, mem: Mem, w: &[&str]) -> Sess {
         let mark = hub.trace_len();
         Sess {
             rt,
@@ -261,9 +306,11 @@ impl Sess {
             applied_ids: BTreeSet::new(),
             reseq_on: num(w, "rq") == 1,
             ordered_ids: false,
+            order_suspended: Default::default(),
             host_online: true,
             clean: false,
             ncmds: 0,
+            mem,
         }
     }
 
@@ -349,6 +396,9 @@ impl Sess {
         let target = if w[1] == "ev" || w[1] == "inv" { Some(w[2].to_string()) } else { None };
         let was_birthed: BTreeMap<String, bool> = self.node_life.clone();
         let ts = kv(w, "ts").map(|x| x.parse::<u64>().unwrap());
+        if kv(w, "nl") == Some("1") {
+            self.order_suspended.insert(target.clone().unwrap());
+        }
         // old messages are discarded (C06, third sentence)
         if w[1] == "ev" && w[3] != "nbirth" && w[3] != "ndeath" {
             let n = target.clone().unwrap();
@@ -413,7 +463,7 @@ impl Sess {
             }
             // C05: applied in publisher order, at most once. The generators number the messages
             // of a node session in publish order, so applied ids must be strictly increasing.
-            if matches!(name, "nodeData" | "devData" | "devBirth") && self.reseq_on && self.ordered_ids {
+            if matches!(name, "nodeData" | "devData" | "devBirth") && self.reseq_on && self.ordered_ids && !self.order_suspended.contains(n) {
                 let id = if name == "nodeData" { args[0] } else { args[1] };
                 if id >= 0 {
                     if let Some(Some(p)) = self.last_applied_id.get(n) {
@@ -441,6 +491,7 @@ impl Sess {
                 self.birth_ts.insert(n.clone(), t);
                 self.node_life.insert(n.clone(), true);
                 self.last_applied_id.insert(n.clone(), None);
+                self.order_suspended.remove(&n);
             } else if t <= *self.birth_ts.get(&n).unwrap_or(&0) && effs.iter().any(|(_, e)| e != "nodeCreated") {
                 // C14: an NBIRTH that is not strictly newer changes nothing
                 out.fail("C14:stale-nbirth-ignored", "older-or-equal", format!("{} => {:?}", op, effs));
@@ -808,13 +859,22 @@ fn faulty_case(out: &mut Out, rng: &mut Rng) {
         let n = rng.range(1, 40) as usize;
         let ndev = rng.below(3);
         let (birth, msgs) = session(rng, bd[k], c.now, n, ndev, &mut next_id);
+        let mut birth_lost = false;
         if rng.chance(9, 10) {
             c.op(&format!("ev {} {}", name, birth));
         } else {
             c.out.count("fault:nbirth-lost");
+            birth_lost = true;
         }
         let d = rng.range(0, 8);
         let mut q = displaced(rng, &msgs, d);
+        if birth_lost {
+            // the marker `nl=1` (ignored by srad and by the model) tells the publish-order oracle
+            // that this publisher session is not delimited by an NBIRTH at the host
+            if let Some(m) = q.first_mut() {
+                m.body.push_str(" nl=1");
+            }
+        }
         // mutate the delivery list
         let mut i = 0;
         while i < q.len() {
